@@ -86,7 +86,9 @@ func checkForbidden(content string) error {
 		}
 	}
 	txt := b.String()
-	isWord := func(c byte) bool { return c == '_' || (c >= '0' && c <= '9') || (c >= 'a' && c <= 'z') || (c >= 'A' && c <= 'Z') }
+	isWord := func(c byte) bool {
+		return c == '_' || (c >= '0' && c <= '9') || (c >= 'a' && c <= 'z') || (c >= 'A' && c <= 'Z')
+	}
 	for _, w := range forbiddenWords {
 		from := 0
 		for {
